@@ -1,12 +1,14 @@
 /-
   Props/C20Src.lean — C20, source level (PARTIAL tie): the sheet printer `_Repr` of task.py is translated on every run
-  (tools/extract_print.py → Extracted/PrintSrc.lean).  Proved in general: the cell texts of the link columns and of the six computed
-  fields.  The `__dict__` part of `__get_field_value`, the layout numbers (`__calc_max_title_len`, `__max_field_len`) and the row
-  sequence of `__print_task_subtree` / `repr` are tied by kernel-evaluated runs of the translated program on a concrete WBS
-  (Lemmas/PrintSrcCheck.lean, PrintSrcCheckB.lean - imported here, so a translated source that no longer reproduces them breaks this
-  module): they are tests at the level of the kernel, not theorems about every input.
+  (tools/extract_print.py → Extracted/PrintSrc.lean).  Proved in general (Lemmas/PrintSrcA.lean, PrintSrcB.lean): the cell texts for EVERY
+  field name, the rows `__print_task_subtree` hands to the table (depth-first, children on/off, the colour rule) and the value of `repr`
+  (header row + the rows of every task of the list = the model's `sheet`).  The layout numbers (`__calc_max_title_len`,
+  `__max_field_len`) are tied by kernel-evaluated runs of the translated program on a concrete WBS (Lemmas/PrintSrcCheck.lean,
+  PrintSrcCheckB.lean - imported here, so a translated source that no longer reproduces them breaks this module): tests at the level
+  of the kernel, not theorems about every input.  `TextTable` / `colored_text` are a primitive whose meaning is the model's `render`.
 -/
 import PjVerif.Lemmas.PrintSrcA
+import PjVerif.Lemmas.PrintSrcB
 import PjVerif.Lemmas.PrintSrcCheck
 import PjVerif.Lemmas.PrintSrcCheckB
 namespace Pj
@@ -31,5 +33,30 @@ theorem C20_source_field_value_std (S : PrintSrc.Lib) (pts : Nat → PrintSrc.Py
     (hf : field ∈ PrintSrc.stdFields) (hF : 3 ≤ F) :
     PrintSrc.interpFieldValue S pts F t field = .ok (.atom (S.s (fieldValue (PrintSrc.tsOf S pts) t field))) :=
   PrintSrc.interpFieldValue_eq pts hS F t field hf hF
+
+/-- … and on EVERY field name: unknown names give '', differently-cased names are retried through `lower()`, `None` gives '-',
+    datetimes go through `strftime`, everything else through `str()` -/
+theorem C20_source_field_value (S : PrintSrc.Lib) (pts : Nat → PrintSrc.PyTask) (hS : S.OK) (F t : Nat) (field : Str) (hF : 3 ≤ F) :
+    PrintSrc.interpFieldValue S pts F t field = .ok (.atom (S.s (fieldValue (PrintSrc.tsOf S pts) t field))) :=
+  PrintSrc.interpFieldValue_eq_all pts hS F t field hF
+
+/-- the translated `_Repr.__print_task_subtree` hands the table exactly the model's rows of the subtree, in depth-first order, with
+    the colour rule (`print_color`, else `level_colors[level]`, else GREY) - for a subtree at most `n + 1` levels deep (`DepthOK`; the
+    model's enumeration has that fuel) and `print_color` values that are `None` or a str (`ColOK`) -/
+theorem C20_source_subtree_rows (S : PrintSrc.Lib) (pts : Nat → PrintSrc.PyTask) (th : PrintSrc.PyTheme) (hS : S.OK)
+    (hc : PrintSrc.ColOK S pts) (F n t level : Nat) (fields : List Str) (children : Bool) (log : List PyLite.Atom)
+    (hd : children = true → PrintSrc.DepthOK pts (n + 1) t) (hF : n + 4 ≤ F) :
+    PrintSrc.interpSubtree S pts th F t fields level children log =
+      .ok (log ++ PrintSrc.logOfRows S (subtreeRows (PrintSrc.tsOf S pts) fields children (PrintSrc.toTheme th) (n + 1) level t)) :=
+  PrintSrc.interpSubtree_eq pts th hS hc F n t level fields children log hd hF
+
+/-- the translated `_Repr.repr`: the header row followed by the rows of every task of the list; its value is the model's `sheet` -/
+theorem C20_source_repr (S : PrintSrc.Lib) (pts : Nat → PrintSrc.PyTask) (th : PrintSrc.PyTheme) (hS : S.OK)
+    (hc : PrintSrc.ColOK S pts) (F n : Nat) (tasks : List Nat) (fields : List Str) (children : Bool)
+    (hd : children = true → ∀ t ∈ tasks, PrintSrc.DepthOK pts (n + 1) t) (hF : n + 5 ≤ F) :
+    PrintSrc.interpRepr S pts th F tasks fields children =
+      .ok (.atom (S.s (sheet (PrintSrc.tsOf S pts) n tasks fields children (PrintSrc.toTheme th))),
+        PrintSrc.logOfRows S (PrintSrc.sheetRows (PrintSrc.tsOf S pts) n tasks fields children (PrintSrc.toTheme th))) :=
+  PrintSrc.interpRepr_eq pts th hS hc F n tasks fields children hd hF
 
 end Pj
